@@ -200,3 +200,133 @@ def replay(run, pid, behs, seed, limit=None):
         run.drifted({"parser_events_unobservable": "the aggregator has none of the enter* listener methods", "cases": nowrap})
     if behs:
         run.sample({"token_stream": behs[len(behs) // 2]["toks"], "model_status": behs[len(behs) // 2]["status"]})
+
+
+# ---------------------------------------------------------------- binding B: recorded parses validated by TLC (TraceParse.tla)
+SYNTAX_EXCEPTIONS = {"CMakeSyntaxError", "RecognitionException", "InputMismatchException", "NoViableAltException",
+                     "FailedPredicateException", "LexerNoViableAltException", "ParseCancellationException"}
+KIND = {"Identifier": "id", "Unquoted_argument": "unq", "Quoted_argument": "quo", "Bracket_argument": "brk",
+        "Docstring": "doc", "Module_docstring": "mdoc"}
+
+
+def trace_of(ident, text):
+    """token kinds of the real lexer + outcome and listener calls of the real Documenter; None if the lexer itself
+    reports an error (then the file never reaches the parser in one piece)"""
+    import lexh
+    toks, errs = lexh.real_lex(text)
+    if errs:
+        return None
+    kinds = []
+    for nm, a, b in toks:
+        t = text[a:b + 1]
+        kinds.append("lp" if t == "(" else "rp" if t == ")" else KIND.get(nm, "other"))
+    if "other" in kinds:
+        return None
+    obs = observe(text)
+    syntax = obs["exc"] is not None and obs["exc"].split(":")[0] in SYNTAX_EXCEPTIONS
+    if obs["status"] == "error" and not syntax:
+        # the aggregator raised while the tree was walked (e.g. an end command without a beginning): the parser had
+        # accepted the file; the listener calls stop where the exception was raised and are not compared
+        return {"id": ident, "toks": kinds, "status": "accept", "events": [], "observable": False, "exc": obs["exc"]}
+    return {"id": ident, "toks": kinds, "status": obs["status"], "events": obs["events"] if obs["status"] == "accept" else [],
+            "observable": obs["wrapped"] > 0, "exc": obs["exc"]}
+
+
+def _trace_chunk(items):
+    out = []
+    for ident, text in items:
+        try:
+            out.append(trace_of(ident, text))
+        except Exception as e:
+            out.append({"id": ident, "harness_error": repr(e)})
+    return out
+
+
+def sources(seed, n_random, n_corpus, max_tokens=1500):
+    """(id, text) of files TLC did not choose: fixtures, random modules, mutilated random modules, corpus modules"""
+    import glob
+    import aggtrace
+    import lexh
+    rng = random.Random(seed)
+    out = []
+    for f in sorted(glob.glob(lib.REPO + "/tests/test_samples/*.cmake") + glob.glob(lib.REPO + "/tests/examples/**/*.cmake", recursive=True)):
+        try:
+            out.append((os.path.relpath(f, lib.REPO), open(f, encoding="utf-8").read()))
+        except Exception:
+            pass
+    for k in range(n_random):
+        src = aggtrace.gen_program(rng, rng.randint(3, 30), in_domain=(k % 2 == 0))
+        out.append(("random-%d" % k, src))
+        # the same module with one token removed or doubled: mostly outside the language
+        words = src.replace("(", " ( ").replace(")", " ) ").split(" ")
+        j = rng.randrange(len(words))
+        out.append(("random-%d-cut" % k, " ".join(words[:j] + words[j + 1:])))
+        j = rng.randrange(len(words))
+        out.append(("random-%d-dup" % k, " ".join(words[:j] + [words[j]] + words[j:])))
+    for f in lexh.corpus_files(seed, n_corpus):
+        try:
+            text = open(f, encoding="utf-8").read()
+        except Exception:
+            continue
+        if len(text) < max_tokens * 6:
+            out.append((os.path.relpath(f, lexh.CORPUS), text))
+    return out
+
+
+def validate(run, seed, n_random, n_corpus, batch=300):
+    import shutil
+    import tempfile
+    srcs = sources(seed, n_random, n_corpus)
+    chunks = [srcs[i::lib.NCPU * 2] for i in range(lib.NCPU * 2)]
+    with ProcessPoolExecutor(max_workers=lib.NCPU, initializer=_init, initargs=(lib.CMINX_SRC,)) as ex:
+        traces = [t for part in ex.map(_trace_chunk, [c for c in chunks if c]) for t in part if t is not None]
+    bad = [t for t in traces if "harness_error" in t]
+    if bad:
+        raise lib.MachineryError("parse trace recorder failed: %r" % (bad[0],))
+    traces.sort(key=lambda t: t["id"])
+    # the binding must bite: a copy of a recorded trace with one field changed has to be rejected by TLC
+    donor = next((t for t in traces if t["status"] == "accept" and t["observable"] and any(e["e"] == "cmd" for e in t["events"])), None)
+    if donor is not None:
+        bad_ev = json.loads(json.dumps(donor["events"]))
+        next(e for e in bad_ev if e["e"] == "cmd")["groups"] += 1
+        traces.insert(0, dict(donor, id="~selftest-corrupted-copy", events=bad_ev))
+    st = run.notes.setdefault("parser_traces", {"recorded": 0, "accepted_files": 0, "rejected_files": 0, "validated": 0, "model_disagrees": 0, "tokens": 0})
+    st["recorded"] += len(traces)
+    st["accepted_files"] += sum(1 for t in traces if t["status"] == "accept")
+    st["rejected_files"] += sum(1 for t in traces if t["status"] != "accept")
+    for k in range(0, len(traces), batch):
+        part = traces[k:k + batch]
+        tmp = tempfile.mkdtemp(prefix="verif_parsetrace_")
+        path = os.path.join(tmp, "batch.json")
+        with open(path, "w") as fh:
+            json.dump({"traces": [{k: v for k, v in t.items() if k != "exc"} for t in part]}, fh)
+        try:
+            res = lib.run_tlc("TraceParse", "CONSTANT Dev <- NoDevT\nCONSTANT MaxTokens = 10000000\nINIT TInit\nNEXT TNext\n",
+                              env={"TRACE_FILE": path}, tags=("END", "REJ"), coverage=False)
+        finally:
+            shutil.rmtree(tmp, ignore_errors=True)
+        ends, rejs = res.lines.get("END", []), res.lines.get("REJ", [])
+        if len(ends) + len(rejs) != len(part):
+            raise lib.MachineryError("parse trace validation lost traces: %d verdicts for %d traces" % (len(ends) + len(rejs), len(part)))
+        run.states += res.distinct
+        run.transitions += res.generated
+        run.tlc_runs.append({"config": "TraceParse", "distinct_states": res.distinct, "states_generated": res.generated,
+                             "wall_s": round(res.wall, 1), "traces": len(part)})
+        run.traces += len(ends)
+        st["validated"] += len(ends)
+        st["model_disagrees"] += len(rejs)
+        st["tokens"] += sum(e["tokens"] for e in ends)
+        for e in ends:
+            if not e["wellformed"] and e["model_status"] == "accept":
+                raise lib.MachineryError("TraceParse: event rules do not hold on an accepted trace of the model: %r" % (e,))
+        byid = {t["id"]: t for t in part}
+        if any(e["id"] == "~selftest-corrupted-copy" for e in ends):
+            raise lib.MachineryError("TraceParse accepted a trace with a corrupted listener event: the binding does not bite")
+        for r in rejs:
+            if r["id"] == "~selftest-corrupted-copy":
+                st["corrupted_copy_rejected"] = True
+                st["model_disagrees"] -= 1
+                continue
+            t = byid.get(r["id"], {})
+            # the generated parser is the reference for the MODEL here: a disagreement is drift of the specification
+            run.drifted({"parser_trace": r["id"], "rejection": r, "exception": t.get("exc")})
